@@ -116,7 +116,8 @@ def cases(seed, tier):
                           'seed': prng.randint(0, 10 ** 6)},
              'scheduler': prng.choice(['legacy', 'default']),
              'uuid_seed': prng.randint(0, 10 ** 6),
-             'clock_offset': prng.choice([0.0, 0.4, 0.9])}
+             'clock_offset': prng.choice([0.0, 0.4, 0.9]),
+             'warm': prng.random() < 0.25}
         if kind in ('fail-on', 'pause-before'):
             c['defaults'] = False   # would hit the neighbour tasks as well
         if kind == 'retry':
@@ -190,6 +191,15 @@ def run_case(case):
          'strategy': case['strategy'], 'scheduler': case['scheduler'],
          'uuid_seed': case['uuid_seed'],
          'clock_offset': case['clock_offset']}
+    if case.get('warm'):
+        # the same definition ran before in this engine process with other
+        # parameter values
+        winp = dict(inp)
+        if isinstance(winp.get('pv'), int):
+            winp['pv'] = winp['pv'] + 2
+        for k in ('brk', 'cont', 'ff'):
+            winp[k] = not winp[k]
+        c['warm'] = {'start': {'wf': 'wf', 'input': winp}, 'outcomes': []}
     phases = []
     state = {}
     if kind == 'timeout':
@@ -239,7 +249,7 @@ def run_case(case):
                                      'async', 'value', 'delay', 'seq',
                                      'use_brk', 'use_cont', 'brk', 'cont',
                                      'ff', 'late', 'wb', 'wa',
-                                     'big_timeout')}
+                                     'big_timeout', 'warm')}
     for v in run.violations:
         if v.get('mech') == 'stuck' and kind == 'timeout':
             continue
